@@ -203,6 +203,9 @@ def is_placeholder(s: str) -> bool:
 # --------------------------------------------------------------------------- Q
 
 
+_PH_EXP = __import__("re").compile(r"(-?)\s*(9[0-9]{8})[eE]([+-]?[0-9]+)")
+
+
 class Q:
     __slots__ = ("c", "k", "b", "_t", "inexact")
 
@@ -229,6 +232,16 @@ class Q:
                 if ph is not None:
                     self.c = None
                     self.k, self.b = -_ONE, ph[0]
+                    return self
+            # a placeholder mantissa with an exponent suffix ("912345678e-05"): the tokenizers glue
+            # an exponent to a number token; it denotes that number times the power of ten
+            m = _PH_EXP.fullmatch(s)
+            if m is not None:
+                ph = PLACEHOLDERS.lookup(m.group(2))
+                if ph is not None:
+                    scale = Fraction(10) ** int(m.group(3))
+                    self.c = None
+                    self.k, self.b = (-scale if m.group(1) else scale), ph[0]
                     return self
             if len(s) == 9 and s[0] == "9" and s.isdigit():
                 # a reserved literal that is not registered on this path: a stale string
